@@ -45,6 +45,7 @@ def run(ctx):
     ctx.rule("R08.g", "param's own write-backs never end a link: every update()/_update() call made by the library on a parameter namespace (other than forwarding the caller's own arguments) "
                       "is inside `with _syncing(...)`, or hands the saved references back (**refs), or is on the class-level branch (classes hold no links)", floor=5)
     ctx.rule("R08.m", "setter model: Parameter.__set__ interpreted abstractly on every combination (576) of route x constant/readonly x validation outcome x identity x reference mode x watchers x batching agrees with the specification of this property (see checks/setter_model.py)", floor=1)
+    ctx.rule("R08.l", "link model: Parameters._update_ref with _setup_refs interpreted abstractly (parameter x/y/new x None / reference on a new source / on an already watched source / asynchronous reference x pending tasks, 48 cases): every old source watcher unwatched once on its own object, the pending task of that parameter cancelled and deregistered (others untouched), refs replaced/removed, exactly one recorded watcher per source of the new table watching exactly its dependency names", floor=1)
     ctx.rule("R08.k", "constructor model: Parameters._setup_params (with _instantiate_param) interpreted abstractly on 288 combinations of keywords x reference modes (plain value / reference with a value / reference without a value yet / asynchronous reference) x an unknown keyword: own copy of every instantiate=True default and pinned constants before any keyword is applied (and still there when a keyword assigns nothing), exactly the specified assignments, every reference and only references recorded", floor=1)
     ctx.rule("R08.t", "trigger model: Parameters.trigger interpreted abstractly (instance/class x names incl. an Event and an unknown name x an event and a watcher queued before x the update dispatches / queues / raises, 96 cases): update runs once, with the trigger flag raised and the parked queues empty, on the current values; on exit the flag is lowered, earlier queue entries survive, no watcher is queued twice; the write-back is inside a _syncing scope", floor=1)
     ctx.not_decided += ["that the parameter equals the reference's resolved value after arbitrary source histories (needs execution)"]
@@ -364,6 +365,8 @@ def run(ctx):
     setter_model.report(ctx, "C08", "R08.m")
     from checks import ctor_model
     ctor_model.report(ctx, "C08", "R08.k")
+    from checks import link_model
+    link_model.report(ctx, "C08", "R08.l")
     from checks import trigger_model
     trigger_model.report(ctx, "C08", "R08.t")
 
